@@ -147,6 +147,7 @@ func (p *Program) Assemble() ([]bpf.Instruction, error) {
 	// The jumps are resolved from the last to the first one. Only forward jumps are supported, so an
 	// instruction that is inserted directly behind the jump being resolved is located in front of
 	// everything that has been resolved already and does not invalidate any computed offset.
+	verifAsmEvent(p, "init", JumpIf{}, 0, 0, false, false)
 	for i := len(p.jumps) - 1; i >= 0; i-- {
 		jump := p.jumps[i]
 
@@ -187,6 +188,7 @@ func (p *Program) Assemble() ([]bpf.Instruction, error) {
 		jumpInst.SkipTrue = uint8(skipTrue)
 		jumpInst.SkipFalse = uint8(skipFalse)
 		p.instructions[jump.index] = jumpInst
+		verifAsmEvent(p, "jump", jump, skipTrue, skipFalse, bridgeTrue, bridgeFalse)
 	}
 
 	return p.instructions, nil
